@@ -265,6 +265,9 @@ Proof.
   - (* GNU_args_size *)
     unfold parse_args. chain.
     rewrite pbind_ok with (a := lv n) by (apply uleb_ok; assumption). reflexivity.
+  - (* MIPS_advance_loc8: not implemented, not well-formed for the theorems *) discriminate.
+  - (* AARCH64_negate_ra_state_with_pc *) discriminate.
+  - (* GNU_negative_offset_extended *) discriminate.
 Qed.
 
 (* ---------------------------------------------------------------- the list *)
